@@ -41,7 +41,8 @@ impl MatchElement {
 
 #[derive(Debug, Clone)]
 pub(crate) enum VarKind {
-    Segment(Segment),
+    /// the captured segment and how many copies long it was
+    Segment(Segment, usize),
     Syllable(Syllable)
 }
 
@@ -606,7 +607,7 @@ impl SubRule {
     fn context_match_var(&self, vt: &Token, mods: &Option<Modifiers>, word: &Word, pos: &mut SegPos, forwards: bool, err_pos: Position) -> Result<bool, RuleRuntimeError> {
         if let Some(var) = self.variables.borrow_mut().get(&vt.value.parse::<usize>().unwrap()) {
             match var {
-                VarKind::Segment(s) => if self.context_match_ipa(s, mods, word, *pos, err_pos)? {
+                VarKind::Segment(s, _) => if self.context_match_ipa(s, mods, word, *pos, err_pos)? {
                     pos.increment(word);
                     Ok(true)
                 } else { Ok(false) },
@@ -689,7 +690,7 @@ impl SubRule {
         }
         if self.match_modifiers(mods, word, pos, err_pos)? {
             if let Some(v) = var {
-                self.variables.borrow_mut().insert(*v, VarKind::Segment(word.get_seg_at(*pos).unwrap()));
+                self.variables.borrow_mut().insert(*v, VarKind::Segment(word.get_seg_at(*pos).unwrap(), word.seg_length_around(*pos)));
             }
             let mut seg_length = word.seg_length_at(*pos);            
             while seg_length >= 1 {
@@ -1263,7 +1264,7 @@ impl SubRule {
                 ParseElement::Variable(num, mods) => {
                     if let Some(var) = self.variables.borrow().get(&num.value.parse().unwrap()) {
                         match var {
-                            VarKind::Segment(seg) => {
+                            VarKind::Segment(seg, _) => {
                                 if let Some(syll) = res_word.syllables.get_mut(pos.syll_index) { 
                                     let lc = syll.insert_segment(pos.seg_index, seg, mods, &self.alphas, state.position)?;
                                     if lc > 0 {
@@ -1359,7 +1360,7 @@ impl SubRule {
         let lc = word.apply_seg_mods(&self.alphas, mods, pos, err_pos)?;
 
         if let Some(v) = var {
-            self.variables.borrow_mut().insert(*v, VarKind::Segment(word.syllables[pos.syll_index].segments[pos.seg_index]));
+            self.variables.borrow_mut().insert(*v, VarKind::Segment(word.syllables[pos.syll_index].segments[pos.seg_index], word.seg_length_around(pos)));
         }
 
         Ok(lc)
@@ -1401,12 +1402,13 @@ impl SubRule {
                     if let Some(var) = self.variables.borrow_mut().get(&num.value.parse().unwrap()) {
                         match var {
                             VarKind::Syllable(_) => return Err(RuleRuntimeError::SyllVarInsideStruct(item.position)),
-                            &VarKind::Segment(mut segment) => {
-                                let mut len = 1;
+                            &VarKind::Segment(mut segment, bound_len) => {
+                                // written back as long as it was captured, unless the modifiers say otherwise
+                                let mut len = bound_len;
                                 if let Some(mods) = modifiers {
                                     segment.apply_seg_mods(&self.alphas, mods.nodes, mods.feats, item.position, false)?;
                                     len = match mods.suprs.length {
-                                        [None, None] => 1,
+                                        [None, None] => bound_len,
                                         [None, Some(v)] => if v.as_bool(&self.alphas, item.position)? { 3 } else { 1 },
                                         [Some(l), None] => if l.as_bool(&self.alphas, item.position)? { 2 } else { 1 },
                                         [Some(l), Some(v)] => match (l.as_bool(&self.alphas, item.position)?, v.as_bool(&self.alphas, item.position)?) {
@@ -1624,7 +1626,7 @@ impl SubRule {
                 ParseElement::Variable(num, mods) => {
                     if let Some(var) = self.variables.borrow_mut().get(&num.value.parse().unwrap()) {
                         match (input[state_index], var) {
-                            (MatchElement::Segment(mut sp, _), VarKind::Segment(seg)) => {
+                            (MatchElement::Segment(mut sp, _), VarKind::Segment(seg, _)) => {
                                 match total_len_change[sp.syll_index].cmp(&0) {
                                     std::cmp::Ordering::Greater => sp.seg_index += total_len_change[sp.syll_index].unsigned_abs() as usize,
                                     std::cmp::Ordering::Less    => sp.seg_index -= total_len_change[sp.syll_index].unsigned_abs() as usize,
@@ -1762,7 +1764,7 @@ impl SubRule {
                                         ParseElement::Variable(num, mods) => { 
                                             if let Some(var) = self.variables.borrow_mut().get(&num.value.parse().unwrap()) {
                                                 match var {
-                                                    VarKind::Segment(seg) => {
+                                                    VarKind::Segment(seg, _) => {
                                                         res_word.syllables[sp.syll_index].segments[sp.seg_index] = *seg;
                                                         if let Some(m) = mods {
                                                             let lc = res_word.apply_seg_mods(&self.alphas, m, sp, num.position)?;
@@ -1856,7 +1858,7 @@ impl SubRule {
                                                             res_word.syllables[sp].apply_syll_mods(&self.alphas, &m.suprs, num.position)?;
                                                         }
                                                     },
-                                                    VarKind::Segment(_) => return Err(RuleRuntimeError::SubstitutionSylltoMatrix(in_state.position, num.position)),
+                                                    VarKind::Segment(..) => return Err(RuleRuntimeError::SubstitutionSylltoMatrix(in_state.position, num.position)),
                                                 }
                                             } else {
                                                 return Err(RuleRuntimeError::UnknownVariable(num.clone()))
@@ -2023,7 +2025,7 @@ impl SubRule {
                     ParseElement::Variable(num, mods) => {
                         if let Some(var) = self.variables.borrow().get(&num.value.parse().unwrap()) {
                             match var {
-                                VarKind::Segment(seg) => {
+                                VarKind::Segment(seg, _) => {
                                     if res_word.in_bounds(pos) {
                                         res_word.syllables[pos.syll_index].segments.insert(pos.seg_index, *seg);
                                     } else if let Some(syll) = res_word.syllables.get_mut(pos.syll_index) { 
@@ -2309,7 +2311,7 @@ impl SubRule {
                 },
                 ParseElement::Variable(num, mods) => match self.variables.borrow_mut().get(&num.value.parse::<usize>().unwrap()) {
                     Some(var) => match var {
-                        VarKind::Segment(s) => if self.context_match_ipa(s, mods, word, *pos, item.position)? {
+                        VarKind::Segment(s, _) => if self.context_match_ipa(s, mods, word, *pos, item.position)? {
                             pos.increment(word);
                         } else { return Ok(false) },
                         VarKind::Syllable(_) => return Err(RuleRuntimeError::SyllVarInsideStruct(item.position)),
@@ -2685,7 +2687,7 @@ impl SubRule {
     fn input_match_var(&self, captures: &mut Vec<MatchElement>, state_index: &mut usize, vt: &Token, mods: &Option<Modifiers>, word: &Word, pos: &mut SegPos, err_pos: Position) -> Result<bool, RuleRuntimeError> {
         match self.variables.borrow_mut().get(&vt.value.parse::<usize>().unwrap()) {
             Some(var) => match var {
-                VarKind::Segment(s)  => if self.input_match_ipa(captures, s, mods, word, pos, err_pos)? {
+                VarKind::Segment(s, _)  => if self.input_match_ipa(captures, s, mods, word, pos, err_pos)? {
                     pos.increment(word);
                     Ok(true)
                 } else { Ok(false) },
@@ -2698,7 +2700,7 @@ impl SubRule {
     fn input_match_matrix(&self, captures: &mut Vec<MatchElement>, mods: &Modifiers, var: &Option<usize>, word: &Word, pos: &mut SegPos, err_pos: Position) -> Result<bool, RuleRuntimeError> { 
         if self.match_modifiers(mods, word, pos, err_pos)? {
             if let Some(v) = var {
-                self.variables.borrow_mut().insert(*v, VarKind::Segment(word.get_seg_at(*pos).unwrap()));
+                self.variables.borrow_mut().insert(*v, VarKind::Segment(word.get_seg_at(*pos).unwrap(), word.seg_length_around(*pos)));
             }
             captures.push(MatchElement::Segment(*pos, None));
             // the way we implement `long` vowels means we need to do this
